@@ -12,6 +12,7 @@
 #include "common.hpp"
 
 #include <functional>
+#include <initializer_list>
 #include <set>
 #include <tuple>
 #include <type_traits>
@@ -321,6 +322,16 @@ struct RecCtor {
         rec(8, 0, 0, vals, cats, r);
     }
 };
+
+// target of make_from_tuple with BOTH a two-int constructor and an initializer_list constructor: records which one ran
+// ([tuple.apply]: make_from_tuple initialises with parentheses, so the (int, int) constructor)
+struct RecIL {
+    int which, a, b;
+    RecIL(int x, int y) : which(1), a(x), b(y) { }
+    RecIL(std::initializer_list<int> l) : which(2), a(l.size() > 0 ? l.begin()[0] : -5), b(l.size() > 1 ? l.begin()[1] : -5) { }
+};
+
+std::string g_ty2_0; // first element type tag of the source of the current converting case
 
 // ---- wrappers -------------------------------------------------------------------------------------
 #ifdef VH_STD
@@ -1060,6 +1071,33 @@ bool run_tup(std::string const& name, std::string const& op, json const& x, json
             C::vals(p, ret);
             C::vals(q, ret);
         }
+    } else if ((op == "ctor_conv_copy" || op == "ctor_conv_move" || op == "assign_conv_copy" || op == "assign_conv_move")
+               && (g_ty2_0 == "tref" || g_ty2_0 == "ctref")) {
+        // source pair whose first element is an lvalue reference (Tracked& / Tracked const&): forward<U1> of an lvalue
+        // reference is an lvalue, so even the converting MOVE operations copy from the referent and leave it untouched
+        if constexpr (std::is_same_v<C, C_p_ti>) {
+            auto go = [&](auto sid) {
+                using ST = typename decltype(sid)::type;
+                if constexpr (requires(TT & dd, ST & s) { TT(std::as_const(s)); TT(std::move(s)); dd = std::as_const(s); dd = std::move(s); }) {
+                    Tracked rt(qv[0].template get<int>());
+                    ST s(rt, qv[1].template get<int>());
+                    auto fin = [&](TT const& dd) {
+                        C::vals(dd, ret);
+                        ret.push_back(vo(rt)); // the referent afterwards
+                        ret.push_back(vo(lib::get<1>(s)));
+                    };
+                    if (op == "ctor_conv_copy") { TT dd(std::as_const(s)); fin(dd); }
+                    else if (op == "ctor_conv_move") { TT dd(std::move(s)); fin(dd); }
+                    else {
+                        TT dd = C::build(pv, sp);
+                        if (op == "assign_conv_copy") { dd = std::as_const(s); } else { dd = std::move(s); }
+                        fin(dd);
+                    }
+                } else { ok = false; }
+            };
+            if (g_ty2_0 == "tref") { go(std::type_identity<lib::pair<Tracked&, int>>{}); }
+            else { go(std::type_identity<lib::pair<Tracked const&, int>>{}); }
+        } else { ok = false; }
     } else if (op == "ctor_conv_copy" || op == "ctor_conv_move" || op == "assign_conv_copy" || op == "assign_conv_move") {
         using SC = typename conv_source<C>::type;
         if constexpr (std::is_void_v<SC>) {
@@ -1191,6 +1229,20 @@ bool run_tup(std::string const& name, std::string const& op, json const& x, json
             else { ok = false; }
             C::vals(p, ret);
         }
+    } else if (op == "mft_il") {
+        if constexpr (N != 2 || !std::is_same_v<std::remove_cvref_t<typename C::template E<0>>, int> || (C::is_pair && !VP_MFT_PAIR)) {
+            ok = false;
+        } else {
+            TT p = C::build(pv, sp);
+            auto push = [&](RecIL const& rr) {
+                ret.push_back(rr.which);
+                ret.push_back(rr.a);
+                ret.push_back(rr.b);
+            };
+            if (mode == 1) { push(lib::make_from_tuple<RecIL>(p)); }
+            else if (mode == 2) { push(lib::make_from_tuple<RecIL>(std::as_const(p))); }
+            else { push(lib::make_from_tuple<RecIL>(std::move(p))); }
+        }
     } else if (op == "cat") {
         using C2 = typename cat_partner<C>::type;
         if constexpr (std::is_void_v<C2>) {
@@ -1288,7 +1340,8 @@ int run_cases(std::string const& path)
             ok = run_form(c["form"].get<std::string>(), c["x"], ret);
             if (!ok) { unsupported("form " + c["form"].get<std::string>()); }
         } else {
-            ok = dispatch_tup(c["cfg"].get<std::string>(), c["op"].get<std::string>(), c["x"], ret);
+            g_ty2_0 = c["ty2"].empty() ? std::string() : c["ty2"][0].get<std::string>();
+            ok      = dispatch_tup(c["cfg"].get<std::string>(), c["op"].get<std::string>(), c["x"], ret);
         }
         g_log.on = false;
         if (!ok) {
